@@ -64,6 +64,8 @@ def c02(tier: str) -> int:
                 if rng.random() < 0.5:
                     rng.shuffle(L['entries'])
                     rng.shuffle(L['synsets'])
+        if len(res['lexicons']) > 1 and rng.random() < 0.4:
+            rng.shuffle(res['lexicons'])       # (an extension may precede a plain lexicon)
         c = {'id': k + 1, 'res': res, 'versions': VERSIONS}
         if rng.random() < 0.25:
             c['foreign'], npres = add_preserve(res, rng)
